@@ -143,7 +143,7 @@ class Model:
         while todo:
             cur = todo.pop(0)
             for p in self.layers[cur].get("parents", []):
-                res = self.idref(("layer", cur), p["ref"])
+                res = self.idref(("layer", cur), p["ref"], dontcares=False)
                 if res[0] == "BIND":
                     sn = self.by_marker[res[1]][0]["sn"]
                     if sn not in out and sn != layer_sn:
@@ -152,7 +152,7 @@ class Model:
         return out
 
     # -- ODXLINK -------------------------------------------------------------------------------
-    def idref(self, owner: Any, ref: Dict[str, Any], with_imports: bool = True) -> Outcome:
+    def idref(self, owner: Any, ref: Dict[str, Any], with_imports: bool = True, dontcares: bool = True) -> Outcome:
         doc = ref.get("doc")
         own = self.owner_frags(owner)
         frs = [tuple(doc)] if doc else own
@@ -175,6 +175,8 @@ class Model:
                 if len(imp) == 1:
                     return ("BIND", imp[0]["m"])
         # not found.  Two situations in which the standard / the property text are not explicit:
+        if not dontcares:
+            return ("FAIL", f"no object with ID {lid} in {frs}")
         if doc and tuple(doc)[1] == "LAYER" and tuple(doc)[0] in self.layers and owner != ("layer", tuple(doc)[0]):
             if self._imported_defs(tuple(doc)[0], lid):
                 return ("DONTCARE", "DOCREF to an importing layer for an ID which that layer only imports")
